@@ -154,6 +154,12 @@ func init() {
 	}
 	registerFixture(fixtureCheck{Group: "ro", Pkg: "ro/bad", Run: ro, Want: []string{"ro/bad.Walk:Field#1", "ro/bad.Get:FieldByName#1", "ro/bad.Kind:TypeOf#1"}})
 	registerFixture(fixtureCheck{Group: "ro", Pkg: "ro/good", Run: ro})
+	kind := func(c *Ctx, r *Result, key string) {
+		g, fs := c.fixGraph(key)
+		runKINDIn(c, g, r, "KIND", fixFuncs(c, g, fs), nil)
+	}
+	registerFixture(fixtureCheck{Group: "kind", Pkg: "kind/bad", Run: kind, Want: []string{"kind/bad.Count:Len#1", "kind/bad.Num:Float#1", "kind/bad.Get:Interface#1", "kind/bad.keys:MapKeys#1"}})
+	registerFixture(fixtureCheck{Group: "kind", Pkg: "kind/good", Run: kind})
 	registerFixture(fixtureCheck{Group: "lock", Pkg: "lock/bad", Run: lock, Want: []string{"lock/bad.Register:registry-access#1", "lock/bad.Compile:registry-noescape#1", "lock/bad.Leak:mu-exit"}})
 	registerFixture(fixtureCheck{Group: "lock", Pkg: "lock/good", Run: lock})
 }
